@@ -406,7 +406,24 @@ class Interp:
         o.attrs['args'] = tuple(args)
         return o
 
+    def in_contract_code(self):
+        """Is the innermost frame executing code of a contract script (a
+        model / duck / proof body), as opposed to code of the repository?"""
+        if not self.frames:
+            return False
+        m = self.frames[-1].module
+        return m is not None and getattr(m, 'name', '').startswith(
+            'contracts')
+
     def throw(self, host_cls, *args):
+        if host_cls in (AttributeError, TypeError) and \
+                self.in_contract_code() and not getattr(self, 'probing', 0):
+            # raised by the engine (not by a `raise` statement) while running
+            # the code of a model or duck written in a contract script: the
+            # model does not cover what the code under verification asked of
+            # it.  That is a gap of the model, not behaviour of the code.
+            raise Unsupported('model gap in contract code: %s: %s' % (
+                host_cls.__name__, args[0] if args else ''))
         raise PyRaise(self.make_exc(host_cls, *args))
 
     def wrap_host_exc(self, e):
@@ -1207,6 +1224,21 @@ class Interp:
         return o
 
     def bind_args(self, f, args, kwargs):
+        fm = getattr(f, 'module', None)
+        if fm is not None and getattr(fm, 'name', '').startswith(
+                'contracts') and self.frames and not self.in_contract_code():
+            # the repository calls a model written in a contract script: a
+            # signature the model does not offer is a model gap
+            try:
+                return self._bind_args(f, args, kwargs)
+            except PyRaise as e:
+                raise Unsupported('model gap: %s of a contract script called '
+                                  'with a signature it does not model (%s)'
+                                  % (f.name, e.exc.attrs.get('args', ('',))[0]
+                                     if hasattr(e.exc, 'attrs') else ''))
+        return self._bind_args(f, args, kwargs)
+
+    def _bind_args(self, f, args, kwargs):
         a = f.node.args
         loc = {}
         pos = [p.arg for p in getattr(a, 'posonlyargs', [])] + \
@@ -1311,6 +1343,17 @@ class Interp:
             ga, _ = o.cls.lookup('__getattr__')
             if ga is not None:
                 return self.call(ga, [o, name], {})
+            cm = getattr(o.cls, 'module', None)
+            absent, _ = o.cls.lookup('__absent__')
+            if cm is not None and getattr(cm, 'name', '').startswith(
+                    'contracts') and name not in (absent or ()) \
+                    and not name.startswith('__') \
+                    and not getattr(self, 'probing', 0):
+                # (a model lists in __absent__ the attributes the modelled
+                # type is known NOT to have)
+                raise Unsupported("model gap: the duck/model class %s of a "
+                                  "contract script has no attribute '%s'"
+                                  % (o.cls.name, name))
             self.throw(AttributeError, "'%s' object has no attribute '%s'"
                        % (o.cls.name, name))
         if isinstance(o, ClassVal):
